@@ -359,6 +359,15 @@ class C03(Prop):
                     g = wc['opts']['graceful_timeout']
                     m['delay'] = [rng.choice(gen.delays_around(g, rng))
                                   for _ in range(4)]
+        if rng.random() < 0.08:
+            # one more cause of termination: an after_spawn hook that refuses
+            # a worker now and then (the fresh worker is terminated like any
+            # other: stop signal, grace period, SIGKILL)
+            wc = rng.choice(cfg['watchers'])
+            scr = ['true'] * 8
+            for _ in range(rng.choice([1, 2, 3])):
+                scr[rng.randrange(8)] = rng.choice(['false', 'raise'])
+            wc['hooks'] = {'after_spawn': {'script': scr, 'ignore': False}}
         n = rng.choice([2, 3, 4, 6]) if tier == 'quick' else \
             rng.choice([3, 5, 8, 12])
         ops = gen.gen_history(rng, cfg, n, self.REQS, self.WEIGHTS,
